@@ -145,3 +145,17 @@ Proof. exact NestEqual.nest_equal_premises_hold. Qed.
 Print Assumptions C11_nest_equal_keeps_text.
 Print Assumptions C11_nest_noflags_identity.
 Print Assumptions C11_nest_equal_premises_hold.
+
+(* ... and for lists / tuples that are edited: the elements of the equal common prefix keep their whole source text - nested dict displays, constructor
+   calls and hand-written leaves included - whatever is inserted, deleted or changed behind them *)
+From V Require Proofs.NestPrefix.
+Theorem C11_nest_prefix_verbatim :
+  forall (ct : Nest.ctab) (f : nat) (F : flags) (k : skind) (olds : list Nest.ntree) (news : list Nest.nval),
+  NestFix.ct_ok ct -> Nest.depth (Nest.NLst k olds) < S f -> NestEqual.okc ct (Nest.NLst k olds) = true -> NestFix.okv ct (Nest.NSeq k news) = true ->
+  f_update F = false ->
+  let c := common_prefix Nest.ntree Nest.nval (Nest.elt_eqb ct) olds news in
+  exists items : list Nest.nres,
+    Nest.assign ct (S f) F (Nest.NLst k olds) (Nest.NSeq k news) = Nest.QSeq k items /\
+    NestProofs.verbatim_list (firstn c items) = Some (firstn c olds).
+Proof. exact NestPrefix.nest_prefix_verbatim. Qed.
+Print Assumptions C11_nest_prefix_verbatim.
